@@ -107,36 +107,54 @@ def objStop (pid : Nat) : M Unit := do
     pure ()
   else pure ()
 
-/-- `Watcher.send_signal`; returns `false` when `NoSuchProcess` escapes -/
-def sendSignal (uid pid sig : Nat) : M Bool := do
+/-- the psutil exception a failed signal raises (`NoSuchProcess` / `AccessDenied`: both `psutil.Error`, neither an
+    `OSError`) -/
+def SigRes.exc : SigRes → Option Exc
+  | .ok => none
+  | .noSuch => some .noSuchProcess
+  | .denied => some (.other "AccessDenied")
+
+/-- `Watcher.send_signal`; anything but `.ok` = `NoSuchProcess` / `AccessDenied` escapes (the `after_signal` hook is
+    then not called: there is no `finally`) -/
+def sendSignal (uid pid sig : Nat) : M SigRes := do
   let w ← getW uid
   if w.pids.contains pid then
     let r ← callHook uid "before_signal"
-    let ok ← if sig ≠ 9 && !r then pure true else kKill pid sig
-    if ok then
+    let res ← if sig ≠ 9 && !r then pure SigRes.ok else kKill pid sig
+    if res = .ok then
       let _ ← callHook uid "after_signal"
-      pure true
-    else pure false
-  else pure true
+      pure .ok
+    else pure res
+  else pure .ok
 
-/-- `Process.send_signal_child`; `false` = NoSuchProcess -/
-def sendSignalChild (ppid cpid sig : Nat) : M Bool := do
+/-- `Process.send_signal_child`; `.noSuch` = NoSuchProcess (also: not a child any more), `.denied` = AccessDenied -/
+def sendSignalChild (ppid cpid sig : Nat) : M SigRes := do
   let cs ← kChildren ppid false
   match cs with
-  | none => pure false
-  | some l => if l.contains cpid then kKill cpid sig else pure false
+  | none => pure .noSuch
+  | some l => if l.contains cpid then kKill cpid sig else pure .noSuch
 
-/-- `Watcher.send_signal_process` -/
-def sendSignalProcess (uid pid sig : Nat) (recursive : Bool) : M Unit := do
+/-- the loop over the children of `Watcher.send_signal_process`: `NoSuchProcess` is swallowed child by child,
+    `AccessDenied` ends it (`false`) -/
+def signalKids (uid pid sig : Nat) : List Nat → M Bool
+  | [] => pure true
+  | c :: cs => do
+    let r ← sendSignalChild pid c sig
+    if r = .denied then pure false else
+    if r = .ok then notify uid "kill" (some c)
+    signalKids uid pid sig cs
+
+/-- `Watcher.send_signal_process`; `false` = `AccessDenied` escapes (from the worker's own signal: the children get
+    nothing; or from a child's: the children after it get nothing) -/
+def sendSignalProcess (uid pid sig : Nat) (recursive : Bool) : M Bool := do
   let cs ← kChildren pid recursive
   match cs with
-  | none => pure ()                                   -- NoSuchProcess with children = None
+  | none => pure true                                 -- NoSuchProcess with children = None
   | some children =>
-    let ok ← sendSignal uid pid sig
-    if ok then notify uid "kill" (some pid)
-    for c in children do
-      let okc ← sendSignalChild pid c sig
-      if okc then notify uid "kill" (some c)
+    let r ← sendSignal uid pid sig
+    if r = .denied then pure false else
+    if r = .ok then notify uid "kill" (some pid)
+    signalKids uid pid sig children
 
 /-- `Watcher.get_active_processes` (pids) -/
 def activeProcs (uid : Nat) : M (List Nat) := do
